@@ -101,7 +101,8 @@ fn eval(c: &Case, rep: &mut Report) {
                         continue;
                     }
                     let Some(need) = lower_bound(c, appended, prefix, unauth) else {
-                        rep.count("lower_bound_reference_unavailable", 1);
+                        // the independent decoders cannot read the completed chunks of what the writer handed over
+                        rep.violate(Violation { sig: json!({"kind": "flushed_prefix_not_decodable_by_the_reference", "layers": lt, "mode": mode}), detail: format!("after flush #{k} ({fl} bytes): the completed chunks do not decrypt / decompress with the independent implementations"), replay, weight });
                         continue;
                     };
                     for (name, want) in &need {
